@@ -1463,11 +1463,29 @@ def gen_batching(seed, mode="loop"):
         for _ in range(n + 2):
             steps.append([])
 
+    throttle = r.random() < 0.2
+    if throttle:
+        # a token bucket that never runs dry but whose refill timer ticks every millisecond: the refill is an internal event
+        # of the module and must not hand over what is being accumulated
+        sc.main.append(("tb", T, 1000, 1000000))
     if use_timeout:
         t0_ = r.choice([3000000, 5000000])
-        sc.main += [("bsize", T, r.choice([0, 0, 64])), ("btimeout", T, t0_)]
-        if r.random() < 0.4:
-            sc.main.append(("btimeout", T, t0_))         # applying the same timeout again must keep it in force
+        if r.random() < 0.5:
+            sc.main += [("bsize", T, r.choice([0, 0, 64])), ("btimeout", T, t0_)]
+            if r.random() < 0.4:
+                sc.main.append(("btimeout", T, t0_))         # applying the same timeout again must keep it in force
+        else:
+            # same settings, other order of the calls; then a burst of normal events in one step: only the timeout
+            # delivers them (together)
+            sc.main += [("btimeout", T, t0_), ("bsize", T, 0)]
+            steps.append([("publish", S2, tn, sc.pay(), 0) for _ in range(r.randrange(2, 5))])
+            settle(4)
+    elif r.random() < 0.08:
+        # a setter refused for lack of tokens has no effect: 1 token, spent on a subscription, then the refused setters
+        sc.main += [("tb", T, 1, 1), ("sub", T, sc.topic("ab1"), 0, sc.ud()), ("btimeout", T, 3000000), ("bsize", T, 5)]
+        steps.append([("publish", S2, tn, sc.pay(), 0)])
+        settle(1)
+        steps.append([("tb", T, 0, 0)])
     elif r.random() < 0.7:
         sc.main.append(("bsize", T, r.choice([0, 1, 2, 3, 7, 2, 3])))
     if r.random() < 0.2:
@@ -1478,6 +1496,11 @@ def gen_batching(seed, mode="loop"):
         settle(1)
         if use_timeout:
             steps.append([("btimeout", T, t0_)])
+    if throttle:
+        steps.append([("publish", S2, tl, sc.pay(), 0) for _ in range(r.randrange(1, 4))])
+        steps += [[("sleep", 2500)], [], [("sleep", 2500)], []]
+        steps.append([("publish", S2, tn, sc.pay(), 0)])
+        settle(1)
     for phase in range(r.randrange(3, 10) if not use_timeout else r.randrange(2, 5)):
         x = r.random()
         if x < 0.2 and not use_timeout:
